@@ -221,16 +221,19 @@ def proof_audit(prop, tier):
                         % (closed, n_print, '; '.join(axioms)[:500]))
     if n_print < len(theorems):
         problems.append('only %d Print Assumptions for %d theorems' % (n_print, len(theorems)))
-    pins_v = os.path.join(COQ, 'theories', 'Pins.v')
+    pins_v = os.path.join(COQ, 'theories', 'Pins', prop + '.v')
     if os.path.exists(pins_v):
         pv = pins_v + 'o'
-        if not (os.path.exists(pv) and os.path.getmtime(pv) >= os.path.getmtime(pins_v)):
-            problems.append('Pins.v (pinned theorem statements) does not compile')
+        if not (os.path.exists(pv) and os.path.getmtime(pv) >= os.path.getmtime(pins_v)
+                and os.path.getmtime(pv) >= os.path.getmtime(vo if os.path.exists(vo) else pins_v)):
+            problems.append('Pins/%s.v (pinned theorem statements) does not compile against Props/%s.v' % (prop, prop))
         else:
             pins = strip_comments(open(pins_v).read())
             for t in theorems:
-                if not re.search(r'\b%s\b' % re.escape(t), pins):
-                    problems.append('theorem %s is not pinned in Pins.v' % t)
+                if not re.search(r'Check \(%s :' % re.escape(t), pins):
+                    problems.append('theorem %s is not pinned in Pins/%s.v' % (t, prop))
+    else:
+        problems.append('no pin file Pins/%s.v' % prop)
     bad = forbidden_scan()
     if bad:
         problems.append('forbidden constructs: ' + '; '.join(bad[:8]))
